@@ -28,7 +28,7 @@ ASSUMPTIONS = ['numerically solved dispersion/trace orders are compared to 1e-6 
 PLAN = {'quick': {'gen': 8}, 'thorough': {'gen': 16, 'tests': 1}}
 REQUIRED_BUCKETS = ['tilt:subpixel', 'tilt:pixels', 'tilt:beyond-output', 'du:aniso', 'du:iso', 'os>1', 'segmented',
                     'rep:ramp', 'rep:plane', 'rep:wavefront', 'rep:fit', 'multi-tilt', 'scan', 'disp:propagated', 'sequence', 'disp:order1', 'disp:order>1',
-                    'refit-after-update', 'refit-segmented', 'fit:flat-segments']
+                    'refit-after-update', 'refit-segmented', 'fit:flat-segments', 'fit:fill-outside-mask']
 REQUIRED_ANCHORS = ['anchor:Tilt.shift', 'anchor:Field.shift', 'anchor:fit_tilt', 'anchor:ptt_vector',
                     'anchor:DispersiveTilt.shift', 'probe:propagate_dft']
 REQUIRED_ORACLES = ['rep=model', 'fit=lstsq', 'fit:opd+tilt', 'shift:additive', 'shift:order', 'shift:signs',
@@ -395,6 +395,11 @@ def workload(ctx, lentil):
                     opd[sg] = 0.0
             ctx.bucket('fit:flat-segments')
         amp = gen.amplitude(rng, A)
+        if i % 4 == 1:
+            # a measured map: the file's fill value wherever there is no aperture - the least-squares tilt of a segment is that of the
+            # samples inside the segment
+            opd = np.where(A, opd, [-9999.0, 1e20, 9.97e36, 1e9][(i // 4) % 4])
+            ctx.bucket('fit:fill-outside-mask')
         desc = {'fit_tilt': list(shape), 'segments': len(segs), 'seg3d': bool(seg), 'dx': list(dxs),
                 'opd': probe.fp_array(opd)[:10]}
         ctx.case(desc, ['segmented'] if len(segs) > 1 else [])
